@@ -58,6 +58,10 @@ pub struct DisplacedTable {
     changed: bool,
     lookup_table: HashMap<Value, RowId>,
     buffered_writes: Arc<SegQueue<RowBuffer>>,
+    /// Bumped by `clear`, so that indexes and subsets cached for the rows that
+    /// existed before it are not mistaken for up to date once the table has
+    /// grown back to the same length.
+    generation: Generation,
 }
 
 struct Canonicalizer<'a> {
@@ -198,6 +202,7 @@ impl Default for DisplacedTable {
             changed: false,
             lookup_table: HashMap::default(),
             buffered_writes: Arc::new(SegQueue::new()),
+            generation: Generation::new(0),
         }
     }
 }
@@ -210,6 +215,7 @@ impl Clone for DisplacedTable {
             changed: self.changed,
             lookup_table: self.lookup_table.clone(),
             buffered_writes: Default::default(),
+            generation: self.generation,
         }
     }
 }
@@ -284,6 +290,7 @@ impl Table for DisplacedTable {
         // `lookup_table` maps a displaced id to its row in `displaced`; stale
         // entries would point past the end of the now-empty vector.
         self.lookup_table.clear();
+        self.generation = self.generation.inc();
     }
 
     fn all(&self) -> Subset {
@@ -299,7 +306,7 @@ impl Table for DisplacedTable {
 
     fn version(&self) -> TableVersion {
         TableVersion {
-            major: Generation::new(0),
+            major: self.generation,
             minor: Offset::from_usize(self.displaced.len()),
         }
     }
